@@ -236,6 +236,13 @@ def self_check_memory(ck, r, st, which, a1, a2, loc, sub, mval, own, mv, widenin
                 return any((not l._is_ptr) and str(l) in str(loc.base) for l, _ in mp)
             def size_of(mp):
                 return [v.size for l, v in mp if l._is_ptr and str(l) == str(loc)]
+            def vec_store_on_base(mp):
+                # a store through a vector-valued pointer one of whose alternatives is this location's base:
+                # the map itself treats it as written at every alternative, merge as one of them
+                return any(l._is_ptr and l.base._is_vec and l is not loc and any(str(x) == str(loc.base) for x in l.base.l) for l, _ in mp)
+            if vec_store_on_base(a1) or vec_store_on_base(a2):
+                ck.count("merge.oracle.memory.vector-pointer-store-may-alias-not-judged")
+                return
             if writes_base(a1) or writes_base(a2):
                 # the pointer's base register is rewritten by one of the maps: "the same
                 # location" is then not the same address in both maps; not judged
